@@ -1,0 +1,147 @@
+//! Wrappers for the ROUTER identity maps (`RouterMap`), the per-peer send strategies and the
+//! auto-delimiter framing functions (`FramingLatch`, `*_auto_encode/decode`).
+use crate::message::{Blob, FrameBatch, Msg};
+use crate::socket::patterns::framing::{
+  dealer_auto_decode, dealer_auto_encode, router_auto_decode, router_auto_encode, FramingLatch,
+};
+use crate::socket::patterns::router::strategies::{
+  DealerPeerStrategy, DefaultRouterStrategy, ReqPeerStrategy, RouterPeerStrategy, RouterSendStrategy,
+};
+use crate::socket::patterns::router::RouterMap;
+use std::sync::Arc;
+
+/// Strategy code used in dumps: 0 Default, 1 Req, 2 Dealer, 3 Router, 9 unknown.
+fn strategy_code(s: &Arc<dyn RouterSendStrategy>) -> u8 {
+  let name = format!("{:?}", s);
+  match name.as_str() {
+    "DefaultRouterStrategy" => 0,
+    "ReqPeerStrategy" => 1,
+    "DealerPeerStrategy" => 2,
+    "RouterPeerStrategy" => 3,
+    _ => 9,
+  }
+}
+
+fn strategy_of(code: u8) -> Arc<dyn RouterSendStrategy> {
+  match code {
+    1 => Arc::new(ReqPeerStrategy),
+    2 => Arc::new(DealerPeerStrategy),
+    3 => Arc::new(RouterPeerStrategy),
+    _ => Arc::new(DefaultRouterStrategy),
+  }
+}
+
+/// Which socket's auto functions a latch is built with (as in `RouterSocket::new` / `DealerSocket::new`).
+pub fn new_latch(router: bool, manual: bool) -> VFramingLatch {
+  let l = if router {
+    FramingLatch::new(router_auto_encode, router_auto_decode)
+  } else {
+    FramingLatch::new(dealer_auto_encode, dealer_auto_decode)
+  };
+  if manual {
+    l.set_manual();
+  }
+  VFramingLatch(l)
+}
+
+pub struct VFramingLatch(FramingLatch);
+
+impl VFramingLatch {
+  pub fn encode(&self, frames: &mut FrameBatch) {
+    self.0.encode(frames)
+  }
+  pub fn decode(&self, frames: &mut FrameBatch) {
+    self.0.decode(frames)
+  }
+  pub fn set_manual(&self) -> bool {
+    self.0.set_manual()
+  }
+  pub fn is_manual(&self) -> bool {
+    self.0.is_manual()
+  }
+}
+
+/// The four free framing functions: 0 router_auto_encode, 1 router_auto_decode,
+/// 2 dealer_auto_encode, 3 dealer_auto_decode.
+pub fn framing_fn(which: u8, frames: &mut FrameBatch) {
+  match which {
+    0 => router_auto_encode(frames),
+    1 => router_auto_decode(frames),
+    2 => dealer_auto_encode(frames),
+    _ => dealer_auto_decode(frames),
+  }
+}
+
+/// `RouterSendStrategy::prepare_wire_frames` of the strategy with the given code, with a ROUTER latch.
+pub fn strategy_prepare(code: u8, identity: Msg, payload: FrameBatch, latch: &VFramingLatch) -> FrameBatch {
+  strategy_of(code).prepare_wire_frames(identity, payload, &latch.0)
+}
+
+pub struct VRouterMap(RouterMap);
+
+impl VRouterMap {
+  pub fn new() -> Self {
+    Self(RouterMap::new())
+  }
+  pub async fn add_peer(&self, identity: &[u8], pipe_read_id: usize, endpoint_uri: String) {
+    self.0.add_peer(Blob::from(identity.to_vec()), pipe_read_id, endpoint_uri).await
+  }
+  pub async fn update_peer_identity(
+    &self,
+    pipe_read_id: usize,
+    new_identity: &[u8],
+    endpoint_uri: &str,
+    peer_socket_type: Option<&str>,
+  ) {
+    self
+      .0
+      .update_peer_identity(pipe_read_id, Blob::from(new_identity.to_vec()), endpoint_uri, peer_socket_type)
+      .await
+  }
+  pub async fn remove_peer_by_read_pipe(&self, pipe_read_id: usize) {
+    self.0.remove_peer_by_read_pipe(pipe_read_id).await
+  }
+  pub async fn remove_peer_by_identity(&self, identity: &[u8]) {
+    self.0.remove_peer_by_identity(&Blob::from(identity.to_vec())).await
+  }
+  pub async fn get_identity_by_read_pipe(&self, pipe_read_id: usize) -> Option<Vec<u8>> {
+    self.0.get_identity_by_read_pipe(pipe_read_id).await.map(|b| b.to_vec())
+  }
+  /// (uri, strategy code) of the forward entry.
+  pub async fn get_peer_info_for_identity(&self, identity: &[u8]) -> Option<(String, u8)> {
+    self
+      .0
+      .get_peer_info_for_identity(&Blob::from(identity.to_vec()))
+      .await
+      .map(|i| (i.uri.clone(), strategy_code(&i.strategy)))
+  }
+  /// Wire frames the strategy STORED for `identity` produces (what `send_multipart` step 4 does).
+  pub async fn prepare_via_stored_strategy(
+    &self,
+    identity: &[u8],
+    identity_msg: Msg,
+    payload: FrameBatch,
+    latch: &VFramingLatch,
+  ) -> Option<FrameBatch> {
+    self
+      .0
+      .get_peer_info_for_identity(&Blob::from(identity.to_vec()))
+      .await
+      .map(|i| i.strategy.prepare_wire_frames(identity_msg, payload, &latch.0))
+  }
+  /// Both maps, sorted by key: forward = (identity, uri, strategy code), reverse = (pipe, identity).
+  pub fn dump(&self) -> (Vec<(Vec<u8>, String, u8)>, Vec<(usize, Vec<u8>)>) {
+    let mut fwd: Vec<(Vec<u8>, String, u8)> = self
+      .0
+      .identity_to_peer_info
+      .read()
+      .iter()
+      .map(|(k, v)| (k.to_vec(), v.uri.clone(), strategy_code(&v.strategy)))
+      .collect();
+    fwd.sort();
+    let mut rev: Vec<(usize, Vec<u8>)> =
+      self.0.read_pipe_to_identity.read().iter().map(|(k, v)| (*k, v.to_vec())).collect();
+    rev.sort();
+    (fwd, rev)
+  }
+}
